@@ -456,6 +456,15 @@ func OracleMayRun(prop string, v *View) []Violation {
 				out = append(out, viol(prop, "ran-without-prerequisite", "enabled refers to "+refKind(bad), "step %s executed although %s of its enabled condition had not been produced before", id, bad))
 			}
 		}
+		// a condition or value that cannot be evaluated (division by zero, ...) never "evaluated to true"
+		for what, e := range map[string]*ir.Expr{"input": ir.Obj(st.In...), "wait_for": st.WaitFor, "enabled": st.Enabled} {
+			if e == nil {
+				continue
+			}
+			if r := obs.Eval(e); r.St == ref.EvalErr {
+				out = append(out, viol(prop, "ran-although-not-evaluable", what, "step %s executed plugin code although its %s (%s) cannot be evaluated: %s", id, what, ir.ExprText(e), r.Why))
+			}
+		}
 	}
 	out = append(out, stoppedBeforeStart(prop, v, obs)...)
 	// the natural model agrees when the run was not cut short: a step that may not run never ran
